@@ -61,6 +61,51 @@ fn normalize(p: &Parts) -> Parts {
     q
 }
 
+/// Two long-lived holders (one per serialization of the same SD-JWT) are driven through the same
+/// sequence of selections with key binding alternately on and off; their outputs must stay equivalent.
+fn reused_pair(cred: &pipeline::Cred, transcoded: &str, sels: &[Map<String, Value>], l: &mut Local) {
+    let cfg = &cred.cfg;
+    let other = cfg.fmt.other();
+    let (Out::Ok(mut ha), Out::Ok(mut hb)) = (drive::holder_new(&cred.issued, cfg.fmt), drive::holder_new(transcoded, other)) else { return };
+    for (i, sel) in sels.iter().enumerate() {
+        l.evals += 1;
+        let want_kb = cfg.hk != Hk::None && i % 2 == 0;
+        let kb = if want_kb { pipeline::kb_args(cfg) } else { KbArgs::none() };
+        let (ra, rb) = (drive::present(&mut ha, sel, &kb), drive::present(&mut hb, sel, &kb));
+        let mk = |class: &str, site: &str, detail: String| {
+            let mut case = pipeline::case_json("c10_reused_pair", &cred.u, &cred.strat, cfg, None);
+            case["selections"] = Value::Array(sels[..=i].iter().map(|m| Value::Object(m.clone())).collect());
+            Violation::new("present", class, site, "honest/reused_holders", detail, case)
+        };
+        let (pa, pb) = (ra.as_ok().and_then(|s| codec::parse(s, cfg.fmt)), rb.as_ok().and_then(|s| codec::parse(s, other)));
+        match (pa, pb) {
+            (Some(a), Some(b)) => {
+                let (mut da, mut db) = (a.disclosures.clone(), b.disclosures.clone());
+                da.sort();
+                db.sort();
+                if da != db || a.kb.is_some() != b.kb.is_some() || a.jwt != b.jwt {
+                    l.violation(mk("formats_disagree", "c10_reused_holder_outputs_differ", format!("call {}: {} disclosures / kb={} vs {} / kb={}", i + 1, da.len(), a.kb.is_some(), db.len(), b.kb.is_some())));
+                    return;
+                }
+                // a verifier that demands key binding must treat both alike, and so must one that does not
+                for (aud, nonce) in [(Some(pipeline::AUD), Some(pipeline::NONCE)), (None, None)] {
+                    let va = drive::verify(ra.as_ok().unwrap(), keys::issuer_dec(cfg.alg, 0), aud, nonce, cfg.fmt);
+                    let vb = drive::verify(rb.as_ok().unwrap(), keys::issuer_dec(cfg.alg, 0), aud, nonce, other);
+                    if !same(&va, &vb) {
+                        l.violation(mk(if va.is_panic() || vb.is_panic() { "panic" } else { "formats_disagree" }, "c10_reused_holder_outputs_verify_differently", format!("call {} (kb expected by verifier: {}): {} holder {} ; {} holder {}", i + 1, aud.is_some(), cfg.fmt.name(), va.class(), other.name(), vb.class())));
+                        return;
+                    }
+                }
+            }
+            (None, None) if ra.is_err() && rb.is_err() => {}
+            _ => {
+                l.violation(mk(if ra.is_panic() || rb.is_panic() { "panic" } else { "formats_disagree" }, "c10_reused_holder_verdicts_differ", format!("call {}: {} vs {}", i + 1, ra.class(), rb.class())));
+                return;
+            }
+        }
+    }
+}
+
 fn hs_key() -> DecodingKey {
     keys::issuer_dec(Alg::HS256, 0)
 }
@@ -85,6 +130,7 @@ fn honest(rep: &Report) {
         // the issued SD-JWT re-expressed in the other format
         let transcoded = cred.parts.serialize(other);
         let (aud, nonce) = if cfg.hk != Hk::None { (Some(pipeline::AUD), Some(pipeline::NONCE)) } else { (None, None) };
+        reused_pair(&cred, &transcoded, &gen::selections_coarse(u), l);
         for sel in gen::selections(u) {
             // holders built from either form select the same disclosures
             let mut outs = vec![];
@@ -348,6 +394,16 @@ pub fn replay(case: &Value) -> Vec<Violation> {
             };
             for k in keys_to_try {
                 both(&parts, &k, case["aud"].as_str(), case["nonce"].as_str(), space, case["label"].as_str().unwrap_or(""), &mut l);
+            }
+        }
+        "c10_reused_pair" => {
+            let u = case["claims"].clone();
+            let s = Strat::from_json(&case["strategy"]);
+            let cfg = Cfg::from_json(&case["cfg"]);
+            if let Some(cred) = pipeline::issue_checked(&u, &s, &cfg, Checks::default(), "C10", &mut l) {
+                let transcoded = cred.parts.serialize(cfg.fmt.other());
+                let sels: Vec<Map<String, Value>> = case["selections"].as_array().unwrap().iter().map(|x| x.as_object().unwrap().clone()).collect();
+                reused_pair(&cred, &transcoded, &sels, &mut l);
             }
         }
         "c10_holder" | "c10_issue" => {
